@@ -359,7 +359,17 @@ func c20ReadData(p *ana.Prog, r *ana.Result) {
 		}
 	})
 	hb := ana.CallsIn(fn, ana.Q("net/ntske.hasBit"))
-	if maskStore == nil || len(hb) != 1 {
+	if maskStore == nil && len(hb) == 1 {
+		// the received type is never modified (the masked value lives in a local): the critical
+		// flag only has to be bit 15 of the header field
+		k, isK := ana.ConstInt(hb[0].Common().Args[1])
+		_, isMasked := hb[0].Common().Args[0].(*ssa.BinOp)
+		if isK && k == 15 && !isMasked && isRecordHdrField(hb[0].Common().Args[0], "Type") {
+			r.Ok("C20.readdata", fname, "critical-bit-read-before-mask", posOf(p, hb[0]), "the critical flag is hasBit(msg.Type, 15) of the type as received (msg.Type is never modified)")
+		} else {
+			r.Violate("C20.readdata", fname, "critical-bit-read-before-mask", posOf(p, hb[0]), "the critical flag is not bit 15 of the record type as received: unrecognised critical records are silently ignored")
+		}
+	} else if maskStore == nil || len(hb) != 1 {
 		r.Violate("C20.readdata", fname, "critical-bit-form", p.Pos(fn.Pos()), fmt.Sprintf("UNDECIDED: expected one hasBit(msg.Type, 15) call and one mask store on msg.Type (found %d / %v)", len(hb), maskStore != nil))
 	} else {
 		bitOK := false
